@@ -103,9 +103,13 @@ STD_CALLS = [
     (r'^isinf\|bool \((const )?(double|float)\)', 'NV_ISINF({0})'),
     (r'^isfinite\|bool \((const )?(double|float)\)', 'NV_FINITE({0})'),
     (r'^signbit\|bool \((const )?(double|float)\)', '__CPROVER_signd({0})'),
+    (r'^(sqrt|exp|log|log10|cbrt)\|double \((const )?double\)', None),      # -> NV_UF_<name>({0}) (filled in below)
+    (r'^pow\|double \((const )?double, (const )?double\)', 'NV_UF_pow({0}, {1})'),
     (r'^memcpy\|void \*\(void \*', 'memcpy((void*)({0}), (const void*)({1}), {2})'),
     (r'^operator=\|[^|]*\|std::atomic<(bool|int|long|unsigned long|unsigned int|double)>\|#2', '(*{&0} = {1})'),
 ]
+STD_CALLS = [x for rx, m in STD_CALLS for x in ([(rx, m)] if m is not None else
+                                                [(rx.replace('(sqrt|exp|log|log10|cbrt)', f), f'NV_UF_{f}({{0}})') for f in ('sqrt', 'exp', 'log10', 'log', 'cbrt')])]
 # sequential view of std::atomic<scalar>: a load is the value, a store is an assignment
 STD_MEMBERS = [
     (r'^(operator (bool|int|long|unsigned long|unsigned int|double)|load)\|std::atomic<(bool|int|long|unsigned long|unsigned int|double)>', '(*{self})'),
